@@ -88,6 +88,10 @@ def cases(tier, seed):
         for rep in range(nrand):
             out.append({"kind": "random", "cls": "random:" + cls, "entry": cls, "maxd": maxd, "idx": idx, "seed": seed})
             idx += 1
+    for sub in gen.AXES_SUBSETS:          # operands populated on each non-empty subset of the four components (other planes exactly empty)
+        for rep in range(1 if tier == "quick" else 6):
+            out.append({"kind": "random", "cls": "random:axes", "entry": "axes:" + sub, "maxd": maxd, "idx": idx, "seed": seed})
+            idx += 1
     for k, cls in enumerate(["gauss", "int", "pure_imag", "sparse", "single_axis", "mixed_mag"] * (2 if tier == "quick" else 10)):
         out.append({"kind": "alias", "cls": "alias_forms", "entry": cls, "idx": k, "seed": seed})
     for k in range(10 if tier == "quick" else 60):
